@@ -17,6 +17,10 @@ func deepCopyValue(v reflect.Value) reflect.Value {
 	return d.deepCopyValue(v)
 }
 
+// ptrKey identifies an object by its address and type (the address alone is
+// ambiguous: a struct and its first field share one). typ is the pointee's
+// type rather than the pointer's, so that pointers of a defined pointer type
+// and plain pointers to the same object are recognized as the same reference.
 type ptrKey struct {
 	ptr uintptr
 	typ reflect.Type
@@ -48,7 +52,7 @@ func (d *deepCopier) deepCopyValue(v reflect.Value) reflect.Value {
 func (d *deepCopier) registerPair(in, out reflect.Value) {
 	if in.CanAddr() && out.CanAddr() {
 		p := in.Addr()
-		pKey := ptrKey{ptr: p.Pointer(), typ: p.Type()}
+		pKey := ptrKey{ptr: p.Pointer(), typ: in.Type()}
 		d.ptrMap[pKey] = out.Addr()
 	}
 }
@@ -98,9 +102,9 @@ func (d *deepCopier) deepCopyIface(in, out reflect.Value) {
 		// consult (and record in) the pointer map like deepCopyPtr does, so
 		// that pointers held in interface values neither break sharing nor
 		// recurse forever on reference cycles.
-		pKey := ptrKey{ptr: inElem.Pointer(), typ: inElem.Type()}
+		pKey := ptrKey{ptr: inElem.Pointer(), typ: inElem.Type().Elem()}
 		if ov, ok := d.ptrMap[pKey]; ok {
-			out.Set(ov)
+			out.Set(ov.Convert(inElem.Type()))
 			return
 		}
 		newVal := reflect.New(inElem.Type().Elem())
@@ -140,9 +144,9 @@ func (d *deepCopier) deepCopyPtr(in, out reflect.Value) {
 	if in.IsNil() {
 		return
 	}
-	pKey := ptrKey{ptr: in.Pointer(), typ: in.Type()}
+	pKey := ptrKey{ptr: in.Pointer(), typ: in.Type().Elem()}
 	if ov, ok := d.ptrMap[pKey]; ok {
-		out.Set(ov)
+		out.Set(ov.Convert(in.Type()))
 		// The deep part of the copying has already been taken care of
 		return
 	}
